@@ -610,6 +610,7 @@ func (w *World) verifySeq(con *Contract, fn *ssa.Function, res *FuncResult) {
 	res.Assumption = append(res.Assumption,
 		"sequence mode ("+con.Func+"): a string is modelled as the sequence of runes it decodes to ([]rune(s) and string(r) are the identity on it; every rune is a valid scalar value); len(s) in bytes is only known to lie in [runes, 4*runes]",
 		"sequence mode: library axioms IsUpper(r)=>IsLetter(r), IsLower(r)=>IsLetter(r), (IsLetter(r)||IsDigit(r))=>(IsLetter(ToUpper(r))||IsDigit(ToUpper(r))) — validated on every run for all 1,114,112 code points against the unicode tables of the Go toolchain that built govc (the toolchain that builds /repo); unicode.Is*/To* are otherwise uninterpreted; the classes of the runes of string literals are computed with the same tables",
+		"sequence mode: int arithmetic is mathematical (the integers involved are indices and lengths of slices, bounded by the length of the input); no overflow obligation is generated",
 		"sequence mode: strings.Builder.WriteString appends and never fails; strings.EqualFold, strings.TrimSuffix, filepath.Base and other library calls on values return unknown results; termination of the loops is not proved",
 	)
 	for _, rq := range con.clauses("requires") {
